@@ -249,7 +249,33 @@ def r154(prog, chk):
     chk.ob("R15.4", f"{f.short}|base and mark components partition the components (a promoted mark is removed from the marks)", bool(apps[base_l]) and bool(apps[mark_l]) and not bad, where(f),
            detail=f"{len(apps[base_l])}+{len(apps[mark_l])} append(s), {len(rems[mark_l])} removal(s)",
            message=f"{f.short}: a component can be handled both as base and as mark ({bad}): its own anchors then override the adjustments of the other marks")
-    chk.minimum("R15.4", 9)
+    # (g) which mark of a mark-ligature becomes the base is decided on the components AS PLACED: the bounds helper measures the
+    #     component itself (component.bounds, or the component drawn into a BoundsPen), never its untransformed base glyph
+    bf = ix.get_func(f"{PA}:_bounds")
+    cp = bf.params()[0]
+    rets = A.returns_of(bf.node)
+    need(rets, f"cannot interpret {bf.short}")
+    okb = True
+    why = []
+    for r_ in rets:
+        v_ = r_.value
+        core = v_.value if isinstance(v_, ast.Subscript) else v_
+        if isinstance(core, ast.Attribute) and core.attr == "bounds" and isinstance(core.value, ast.Name):
+            if core.value.id == cp:
+                why.append("component.bounds")
+                continue
+            # bounds of a pen: every draw into that pen is the component's own draw
+            pen = core.value.id
+            dr = [c_ for c_ in A.body_nodes(bf.node) if isinstance(c_, ast.Call) and isinstance(c_.func, ast.Attribute) and c_.func.attr in ("draw", "drawPoints") and c_.args and T(c_.args[0]) == pen]
+            if dr and all(T(c_.func.value) == cp for c_ in dr):
+                why.append("component.draw(BoundsPen)")
+                continue
+        okb = False
+        why.append(f"`{T(v_, 50)}`")
+    chk.ob("R15.4", f"{bf.short}|the base of a mark ligature is chosen from the components as placed (component bounds, transformation included)", okb, where(bf), detail=", ".join(why),
+           message=f"{bf.short}: the bounds used to pick the base of a mark ligature are not those of the component as placed ({', '.join(why)}): a flipped / scaled / rotated component is "
+                   f"measured without its transformation and the wrong mark's anchors are propagated")
+    chk.minimum("R15.4", 10)
 
 
 # ----------------------------------------------------------------------------- R15.5
@@ -349,6 +375,8 @@ MUTANTS = [
       "if not any((any((_isTransformed(c) for c in g.components)) for g in glyphs)):\n    return False\nreturn super().filter(glyphName, glyphs)",
       "if not all((any((_isTransformed(c) for c in g.components)) for g in glyphs)):\n    return False\nreturn super().filter(glyphName, glyphs)", rule="R15.2"),
     M("nested offset axes swapped", "ufo2ft/filters/flattenComponents.py", "_flattenComponent", "flat_tr.translate(tr.dx, tr.dy)", "flat_tr.translate(tr.dy, tr.dx)", rule="R15.3"),
+    M("component bounds measured on the untransformed base glyph (seeded C15e)", "ufo2ft/filters/propagateAnchors.py", "_bounds",
+      "component.draw(pen)", "glyph_set[component.baseGlyph].draw(pen)", rule="R15.4"),
     M("promoted mark stays in the mark list (mutation scan k=146)", "ufo2ft/filters/propagateAnchors.py", "_propagate_glyph_anchors",
       "mark_components.remove(component)", "pass", rule="R15.4"),
     M("propagation overrides existing anchors", "ufo2ft/filters/propagateAnchors.py", "_propagate_glyph_anchors",
